@@ -171,12 +171,78 @@ CHECKS.update({
                      "file-system state is rebuilt for every execution; one recorded schedule replayed twice must give identical observations"],
     ),
 })
+def _c16(tier, seed):
+    import c16
+    return c16.explore(tier, seed)
+
+
+CHECKS.update({
+    "C16": dict(
+        level="model_checking", rust=False, cli=True, python=[_c16],
+        rule="breadth-first search over the states of a directory with entries x.pas / y.pas (16-element content alphabet incl. BOMs, "
+             "invalid UTF-8, 80 KiB, directory, dangling symlink, missing; pairs from a 6-element subset); in every state every operation "
+             "(files/check/stdout x path, directory, glob, --files-from x every subset of names; stdin->stdout; check on stdin) is executed "
+             "on the real binary and compared with the reference model; states are de-duplicated by content hash; files-mode results "
+             "are successor states. states = distinct states visited, transitions = operations executed, every one on the implementation",
+        bounds={"quick": "depth 2 from 16 single-file and 16 two-file initial states", "thorough": "depth 3 from 16 single-file and 36 two-file initial states"},
+        assumptions=["F (what formatting a content yields) is taken from the binary's own stdin->stdout run, as the property states it",
+                     "mtime is used to detect rewrites of unchanged files (files are given a fixed old mtime before each operation)"],
+    ),
+})
+def _c17(tier, seed):
+    import c17
+    return c17.explore(tier, seed)
+
+
+CHECKS.update({
+    "C17": dict(
+        level="model_checking", rust=False, cli=True, python=[_c17],
+        rule="every encoding the option accepts (40 labels, plus native) x per-encoding texts (ASCII, each frozen non-ASCII character in an "
+             "identifier, a string and a comment, all together) x {no BOM, UTF-8, UTF-16LE, UTF-16BE BOM with the configured encoding to be "
+             "overridden} x {file in place, stdin->stdout}; malformed byte strings per encoding. Reference model: BOM + encode_E(F(decode_E(bytes))) "
+             "with Python's codec on the frozen character table and F from the binary's UTF-8 path; every case runs on the real binary",
+        bounds={"quick": "all encodings x all texts x 2 transports; BOM variants on the richest text per encoding; all malformed entries",
+                "thorough": "BOM variants on every text"},
+        assumptions=["corpus/encodings.json (frozen at the pinned tree) lists characters on which Python's codec and the WHATWG encoding agree; only those are used",
+                     "F is taken from the binary's UTF-8 stdin->stdout path"],
+    ),
+})
+def _c19(tier, seed):
+    import c19
+    return c19.explore(tier, seed)
+
+
+CHECKS.update({
+    "C19": dict(
+        level="model_checking", rust=True and False, cli=True, python=[_c19],
+        rule="directory chains of depth 0..4 x option sets (each option; pairs) x every subset of the sources {pasfmt.toml at the working "
+             "directory / a middle ancestor / the top ancestor, --config-file, -C} with values distinct per source, plus splits of two options "
+             "between file and command line; the binary's output on a probe program (one construct per option) is compared with the in-process "
+             "rendering of the model's effective configuration; invalid keys/values in each source x {files mode, stdin}; missing/directory "
+             "--config-file. states = source assignments, each executed on the real binary",
+        bounds={"quick": "depths {0,1,2,4}; single options x all 2^5 source subsets; 7 adjacent pairs x subsets of size 2-3; 14 invalid settings x 3 sources x 2 modes",
+                "thorough": "depths 0..4; all 21 pairs x all source subsets"},
+        assumptions=["no pasfmt.toml exists in any ancestor of /verif/work (asserted at start-up)",
+                     "the expected rendering comes from the explorer binary (FormattingConfig via toml, no config-crate layering)"],
+    ),
+})
 CHECKS["C01"]["bounds"]["quick"] += "; progs(d<=1) x comment+directive variants x 2 configs"
 CHECKS["C08"]["bounds"]["quick"] += "; end-of-file clause: progs(d<=2) x bases x 6 configs, wf seeds x 6"
 CHECKS["C13"]["bounds"]["quick"] += "; progs(d<=1) variants and all seeds: input and formatted output"
 CHECKS["C14"]["bounds"]["quick"] += "; well-formed clauses: progs(d<=2) bases, progs(d<=1) all variants, wf seeds"
 
 
-def replay_python(case):
-    print("no python replays registered")
+def replay_python(doc):
+    case = doc.get("case", doc)
+    o = case.get("oracle")
+    if o == "c16":
+        import c16
+        return c16.replay(case)
+    if o == "c17":
+        import c17
+        return c17.replay(case)
+    if o == "c19":
+        import c19
+        return c19.replay(case)
+    print("no python replay for", o)
     return 2
